@@ -8,4 +8,5 @@ def run(tier):
     cm.run_kernels(r, cm.kernels('c_inside', 'c_inside#evenodd'))
     r.explanation = ('Engine C on the real c_inside: for points inside the bounding box the answer is the parity of the half-open crossing number '
                      '(per-edge step proved in nonlinear real arithmetic under the input class of the property), points outside the box keep the caller\'s value')
+    cm.run_monitors(r, ['mon_polygon_api'])
     return r.finish()
